@@ -1392,7 +1392,9 @@ impl Sim {
         }
         self.sig_mix(&format!("query:{plan}:{}:{}", expect.matching.len().min(9), q.limit.map(|l| l.min(9)).unwrap_or(99)));
         if let Some(msg) = expect.check(q, &out) {
-            return Some(self.finding(i, "query-result", &["C05"], format!("{}: {msg}; got {label}", q.brief())));
+            let f = self.finding(i, "query-result", &["C05"], format!("{}: {msg}; got {label}", q.brief()));
+            // (a wrong query answer does not end a run that is about another property)
+            return self.settle(f, vec![]);
         }
         None
     }
